@@ -203,6 +203,22 @@ func newScenario(g *G) *scenario {
 	if err != nil {
 		return nil
 	}
+	// populations whose organisms were not normalised by spawn (read from a file / built by hand): some or all
+	// connection genes carry no trait (gene trait id 0 in a population file)
+	if g.chance(0.2) {
+		origin += "+traitless"
+		all := g.chance(0.5)
+		for _, o := range pop.Organisms {
+			if !all && g.chance(0.5) {
+				continue
+			}
+			for _, gn := range o.Genotype.Genes {
+				if all || g.chance(0.6) {
+					gn.Link.Trait = nil
+				}
+			}
+		}
+	}
 	return &scenario{pop: pop, opts: opts, generation: 1, landscape: landscapes[g.intn(len(landscapes))], origin: origin}
 }
 
